@@ -238,3 +238,5 @@ def run(ctx):
     run.floor("C20.specification", 5)
     from .hidden_state import rule_no_hidden_state
     ctx.do(rule_no_hidden_state, "C20.history-independence")
+    from .pitfalls import rule_loops_not_cut_short
+    ctx.do(rule_loops_not_cut_short, "C20.loops-complete")
